@@ -219,5 +219,35 @@ theorem findAxis_sorted (t : Tree) (a : Axis) (ctx : Path) (hc : ctx ∈ t.paths
           exact sub_mem_paths _ t ks[j] (by rw [h1]; simp [Tree.sub, this])
       · rw [List.pairwise_map]
         exact List.pairwise_lt_range.imp (fun {i j} h => DocBefore_snoc_child _ i j h)
+  | self =>
+    simp [findAxis, axisSorted, hc]
+  | ancestorOrSelf =>
+    simp only [findAxis, axisSorted, if_true, List.map_reverse, List.reverse_reverse]
+    constructor
+    · intro p hp
+      simp only [List.mem_reverse, List.mem_map, List.mem_range] at hp
+      obtain ⟨k, _, rfl⟩ := hp
+      obtain ⟨r', hr'⟩ := sub_prefix (ctx.take k) (ctx.drop k) t pt (by rw [List.take_append_drop]; exact hpt)
+      exact sub_mem_paths _ t r' hr'
+    · rw [List.pairwise_map]
+      have : (List.range (ctx.length + 1)).Pairwise (fun i j => i < j ∧ j < ctx.length + 1) := by
+        have h1 : (List.range (ctx.length + 1)).Pairwise (· < ·) := List.pairwise_lt_range
+        exact List.Pairwise.imp_of_mem (fun {a b} _ hb h => ⟨h, List.mem_range.mp hb⟩) h1
+      exact this.imp (fun {i j} h => DocBefore_take ctx i j h.1 (by omega))
+  | descendant =>
+    simp only [findAxis, axisSorted, Bool.false_eq_true, if_false]
+    exact ⟨fun p hp => (List.mem_filter.mp hp).1, (paths_pairwise t).sublist List.filter_sublist⟩
+  | descendantOrSelf =>
+    simp only [findAxis, axisSorted, Bool.false_eq_true, if_false]
+    exact ⟨fun p hp => (List.mem_filter.mp hp).1, (paths_pairwise t).sublist List.filter_sublist⟩
+  | following =>
+    simp only [findAxis, axisSorted, Bool.false_eq_true, if_false]
+    exact ⟨fun p hp => (List.mem_filter.mp hp).1, (paths_pairwise t).sublist List.filter_sublist⟩
+  | preceding =>
+    simp only [findAxis, axisSorted, if_true, List.reverse_reverse]
+    exact ⟨fun p hp => (List.mem_filter.mp (List.mem_reverse.mp hp)).1, (paths_pairwise t).sublist List.filter_sublist⟩
+  | namespaces =>
+    simp only [findAxis, axisSorted, Bool.false_eq_true, if_false]
+    exact ⟨fun p hp => (List.mem_filter.mp hp).1, (paths_pairwise t).sublist List.filter_sublist⟩
 
 end XalanModel.C12
